@@ -18,7 +18,8 @@
 (***************************************************************************)
 EXTENDS Naturals, Integers, Sequences, FiniteSets, TLC
 
-CONSTANT S
+CONSTANTS S,
+          Inc          \* the value of includeDeprecated given to fields / args / inputFields / enumValues
 NULL == "<null>"                        \* an absent string
 None == [null |-> TRUE, v |-> <<>>]     \* an absent object or list (TLC cannot compare a string with a record)
 Opt(x) == [null |-> FALSE, v |-> x]
@@ -69,10 +70,11 @@ Canon(t, v) ==
               [] OTHER -> "?"
 
 \* ---- entries ---------------------------------------------------------------------------------------------------
+Keep(seq) == IF Inc THEN seq ELSE SelectSeq(seq, LAMBDA x : ~x.dep.is)      \* deprecated entries are listed only on request
 InputValue(i) == [name |-> i.name, description |-> i.desc, type |-> TypeRef(i.type),
                   defaultValue |-> IF i.default[1] = "none" THEN NULL ELSE Canon(i.type, i.default),
                   isDeprecated |-> i.dep.is, deprecationReason |-> IF i.dep.is THEN i.dep.reason ELSE NULL]
-Field(f) == [name |-> f.name, description |-> f.desc, args |-> [k \in 1..Len(f.args) |-> InputValue(f.args[k])],
+Field(f) == [name |-> f.name, description |-> f.desc, args |-> [k \in 1..Len(Keep(f.args)) |-> InputValue(Keep(f.args)[k])],
              type |-> TypeRef(f.type), isDeprecated |-> f.dep.is, deprecationReason |-> IF f.dep.is THEN f.dep.reason ELSE NULL]
 EnumValue(v) == [name |-> v.name, description |-> v.desc, isDeprecated |-> v.dep.is,
                  deprecationReason |-> IF v.dep.is THEN v.dep.reason ELSE NULL]
@@ -85,10 +87,10 @@ PossibleTypes(t) ==
 TypeEntry(t) ==
   [kind |-> t.kind, name |-> t.name, description |-> t.desc,
    specifiedByURL |-> IF t.kind = "SCALAR" THEN t.specifiedBy ELSE NULL,
-   fields |-> IF t.kind \in {"OBJECT", "INTERFACE"} THEN Opt([k \in 1..Len(t.fields) |-> Field(t.fields[k])]) ELSE None,
-   inputFields |-> IF t.kind = "INPUT_OBJECT" THEN Opt([k \in 1..Len(t.inputFields) |-> InputValue(t.inputFields[k])]) ELSE None,
+   fields |-> IF t.kind \in {"OBJECT", "INTERFACE"} THEN Opt([k \in 1..Len(Keep(t.fields)) |-> Field(Keep(t.fields)[k])]) ELSE None,
+   inputFields |-> IF t.kind = "INPUT_OBJECT" THEN Opt([k \in 1..Len(Keep(t.inputFields)) |-> InputValue(Keep(t.inputFields)[k])]) ELSE None,
    interfaces |-> IF t.kind \in {"OBJECT", "INTERFACE"} THEN Opt([k \in 1..Len(t.interfaces) |-> Named(t.interfaces[k])]) ELSE None,
-   enumValues |-> IF t.kind = "ENUM" THEN Opt([k \in 1..Len(t.values) |-> EnumValue(t.values[k])]) ELSE None,
+   enumValues |-> IF t.kind = "ENUM" THEN Opt([k \in 1..Len(Keep(t.values)) |-> EnumValue(Keep(t.values)[k])]) ELSE None,
    possibleTypes |-> IF t.kind \in {"INTERFACE", "UNION"} THEN Opt(PossibleTypes(t)) ELSE None]
 
 \* the same entry read from a response (possibleTypes as a set, duplicates are an error)
@@ -110,7 +112,7 @@ BuiltinScalarMatches(r) ==
   /\ r.enumValues.null /\ r.possibleTypes.null
 
 DirectiveEntry(d) == [name |-> d.name, description |-> d.desc, isRepeatable |-> d.repeatable, locations |-> d.locations,
-                      args |-> [k \in 1..Len(d.args) |-> InputValue(d.args[k])]]
+                      args |-> [k \in 1..Len(Keep(d.args)) |-> InputValue(Keep(d.args)[k])]]
 \* built-in directives (descriptions are not compared)
 BoolNN == TypeRef(<<"nonnull", <<"named", "Boolean">>>>)
 StrNN == TypeRef(<<"nonnull", <<"named", "String">>>>)
@@ -147,10 +149,10 @@ DefaultDiffs(coord, got, ivds) ==      \* got: input values of the response; ivd
 EntryDefaultDiffs(r, t) ==
   LET e == TypeEntry(t) IN
     (IF e.fields.null \/ r.fields.null THEN {}
-     ELSE UNION {DefaultDiffs(t.name \o "." \o e.fields.v[k].name, r.fields.v[k].args, t.fields[k].args) :
+     ELSE UNION {DefaultDiffs(t.name \o "." \o e.fields.v[k].name, r.fields.v[k].args, Keep(Keep(t.fields)[k].args)) :
                    k \in {j \in 1..Len(e.fields.v) : j <= Len(r.fields.v) /\ Len(r.fields.v[j].args) = Len(e.fields.v[j].args)}})
     \cup (IF e.inputFields.null \/ r.inputFields.null \/ Len(r.inputFields.v) # Len(e.inputFields.v) THEN {}
-         ELSE DefaultDiffs(t.name, r.inputFields.v, t.inputFields))
+         ELSE DefaultDiffs(t.name, r.inputFields.v, Keep(t.inputFields)))
 EntryProblems(r, t) ==
   IF EntryMatches(r, t) THEN {}
   ELSE IF MaskEntry(ReadEntry(r)) = MaskEntry(TypeEntry(t)) THEN EntryDefaultDiffs(r, t)
@@ -158,7 +160,7 @@ EntryProblems(r, t) ==
 DirectiveProblems(r, d) ==
   LET e == DirectiveEntry(d) IN
   IF r = e THEN {}
-  ELSE IF [r EXCEPT !.args = MaskIVs(@)] = [e EXCEPT !.args = MaskIVs(@)] THEN DefaultDiffs("@" \o d.name, r.args, d.args)
+  ELSE IF [r EXCEPT !.args = MaskIVs(@)] = [e EXCEPT !.args = MaskIVs(@)] THEN DefaultDiffs("@" \o d.name, r.args, Keep(d.args))
   ELSE {<<"directive-entry", d.name>>}
 
 RootRef(n) == IF n = "" THEN None ELSE Opt([name |-> n])
